@@ -117,6 +117,9 @@ def bfs(h, max_states=2_000_000, max_depth=None, want_graph=False, known=None, t
     while frontier:
         nxt = []
         for st in frontier:
+            if len(parent) > max_states or (time_limit is not None and time.time() - t0 > time_limit):
+                r.capped = ("max_states=%d" % max_states) if len(parent) > max_states else ("time_limit=%ds" % time_limit)
+                break
             S, E = st
             sid = index[st]
             m = menu(S, E)
@@ -154,6 +157,9 @@ def bfs(h, max_states=2_000_000, max_depth=None, want_graph=False, known=None, t
                 continue
             break
         if r.violation is not None and stop_on_violation:
+            break
+        if r.capped:
+            frontier = nxt
             break
         frontier = nxt; depth_of_level += 1
         if frontier: level_sizes.append(len(frontier))
